@@ -4,6 +4,27 @@ package main
 
 func propertyTable() map[string]PropertyCfg {
 	return map[string]PropertyCfg{
+		"C15": {ID: "C15",
+			Assumptions: []string{
+				"precondition: cue pointers non-nil and distinct, every instant (boundaries and the four reference points) in [0,24h], a1 != a2, slope in [1/2, 2] (the property's quantifier)",
+				"float64 model: every operation returns the correctly rounded result of the exact real value: monotone, relative error <= 2^-53 (+1e-30 absolute for subnormals); int64->float64 is exact when the value is proved to lie within +-2^53; float64->int64 truncates toward zero; no overflow/NaN (magnitudes <= 2e14 by the preconditions); FMA contraction satisfies the same model",
+				"the 1 microsecond bound is discharged as a lemma over real-valued parameters (nonlinear real arithmetic) and instantiated at each cue boundary",
+			},
+			NotDecided: []string{"'scales every cue's length by the slope' is implied only up to the 1 microsecond bound per boundary; not stated separately"},
+		},
+		"C16": {ID: "C16",
+			Assumptions: []string{
+				"extern laws: strconv.Itoa(n) = itoa(n) (injective uninterpreted decimal rendering with length by range), strconv.FormatFloat(v,'f',0,64) = itoa(int(v)) for integral 0 <= v < 2^53, astikit.StrPad(s,'0',n,PadLeft) = strpadleft(s,48,n) of length max(len s, n), time.Duration.Nanoseconds() = int64(d), math.Pow(10,0)=1 and math.Pow(10,1)=10",
+				"float kernels: the float64 expressions in formatDuration / formatDurationSTL / formatDurationSTLBytes are matched syntactically and replaced by their integer value; each replacement is justified by a QF_BVFP library lemma (contracts/fp/*.smt2, a transcription of the Go expression and of time.Duration.Hours/Minutes/Seconds from the Go 1.23 source) discharged in this run",
+				"strings are an uninterpreted sort with a concatenation rope; no string theory",
+			},
+			NotDecided: []string{
+				"that each text format's reader maps the writer's rendering back to the truncated instant (parse after format) is a fact about strings.Split/TrimSpace/Atoi composed with concatenation/Itoa: out of the verifier's reach; the thorough tier runs the real parse(format(t)) pair exhaustively on a millisecond grid as a bounded stand-in (labelled bounded, never counted as proved)",
+				"parseDuration, parseDurationSTL: only panic-freedom is in scope (C08), not their functional behaviour",
+			},
+			Bounded: []string{"thorough tier: real parseDuration*(formatDuration*(t)) for SRT, WebVTT, SSA on every millisecond (centisecond for SSA) of [0,24h) plus unit boundaries +-1ns and hour values {0,1,9,10,23,24,99}; STL string timecodes on every frame of [0,24h) at 25 and 30 fps"},
+			Special: c16Special,
+		},
 		"C09": {ID: "C09",
 			Assumptions: []string{
 				"precondition: cue pointers non-nil and pairwise distinct, start <= end per cue, |t|,|d| <= 2^62 (the property's 'cue list')",
